@@ -4,7 +4,7 @@ R-OFFSET-ROUNDTRIP (view / write-back), R-COUNTER (propagation counters), R-SOLU
 from __future__ import annotations
 
 import ast
-from typing import Any, Dict, List, Optional, Tuple
+from typing import Any, Dict, List, Optional, Tuple, Set
 
 from ..core import Ctx
 from ..interp import ALL, Dual, Event, Interp, LoopSummary, PathResult, State, View, as_view
@@ -411,6 +411,59 @@ def rule_writeback(ctx: Ctx, prog: Program, want: Tuple[str, ...] = ("R-EVENTS-E
                                            sample={"mask": m, "stored": sorted(stored_bits), "singleton": {True: "yes", False: "no", None: "maybe"}[g]})
                     if not stores and not calls:
                         ctx.ok("R-EVENTS-EXACT", f"{a.mode}:no-store-no-event", nontrivial=False)
+        # ---- completeness of the write-back: an iteration that goes on without storing a bound has compared that bound of the shared
+        # domain with the filtered view (otherwise a tighter -- possibly crossing -- result of the filtering is silently dropped: an
+        # instantiated shared domain seen through two views is the case where only this comparison reveals the failure)
+        if "R-WRITEBACK-MONO" in want:
+            def top_atoms(x: Any) -> List[Any]:
+                """atoms of the affine form(s) themselves, not those nested inside their index expressions"""
+                if isinstance(x, Aff):
+                    return list(x.atoms())
+                if isinstance(x, tuple):
+                    r_: List[Any] = []
+                    for y in x[1:]:
+                        if isinstance(y, (Aff, tuple)):
+                            r_.extend(top_atoms(y))
+                    return r_
+                return []
+
+            def cells(x: Any) -> List[Tuple[str, Tuple[Any, ...]]]:
+                out_: List[Tuple[str, Tuple[Any, ...]]] = []
+                for at in top_atoms(x):
+                    if isinstance(at, tuple) and at and at[0] == "init" and len(at) >= 3:
+                        out_.append((at[1], at[2]))
+                    elif isinstance(at, tuple) and at and at[0] == "hav" and len(at) >= 4:
+                        out_.append((at[2], at[3]))
+                return out_
+            view_roots: Set[str] = set()
+            for l in by_node.values():
+                for bp in l.paths:
+                    for e in bp.events:
+                        if e.kind == "store" and e.root == a.stack and isinstance(e.value, Aff):
+                            view_roots |= {r for r, ix in cells(e.value) if r != a.stack and len(ix) == 2}
+            for l in by_node.values():
+                for bp in l.paths:
+                    if bp.outcome == "return":
+                        continue
+                    stored_b = {e.idx[2].c for e in bp.events if e.kind == "store" and e.root == a.stack and len(e.idx) == 3
+                                and isinstance(e.idx[2], Aff) and e.idx[2].is_const()}
+                    for bname, b in (("MIN", MIN), ("MAX", MAX)):
+                        if b in stored_b:
+                            continue
+                        compared = False
+                        for cnd in bp.state.facts.conds:
+                            cs = cells(cnd)
+                            if any(r == a.stack and len(ix) == 3 and isinstance(ix[2], Aff) and ix[2].is_const() and ix[2].c == b for r, ix in cs) \
+                                    and any(r in view_roots for r, _ in cs):
+                                compared = True
+                                break
+                        if compared:
+                            ctx.ok("R-WRITEBACK-MONO", f"{a.mode}:{bname}:left-as-is-after-comparison", nontrivial=False)
+                        else:
+                            ctx.violation("R-WRITEBACK-MONO", a.fn.path, a.fn.name, f"tightening-untested:{bname}", f"{a.fn.path}:{getattr(l.node, 'lineno', 0)}",
+                                          f"an iteration of the write-back goes on without storing the {bname} of the shared domain and without having compared "
+                                          "it with the filtered view: a tighter result of the filtering (possibly one that empties the domain, when the "
+                                          "same shared domain is seen through two views) is dropped and the failure is never reported")
         ctx.floor(f"R-WRITEBACK:{a.mode}:storing-paths", n_store_paths, 3)
 
 
